@@ -298,6 +298,95 @@ theorem sim_decode_contiguous {x : GPS grow} {st : Store} (h : Sim x st) (b : Li
     (decodeStore_rel_cc ⟨s, s', rfl, rfl, hi, hi', hc⟩ (nb b)
       (fun v r0 start r1 stride r2 h1 h2 h3 => (hn v r0 start r1 stride r2 h1 h2 h3).2))
 
+/-! ### 4. the generic layout (the fallback of the paginated decoder), and the three layouts in one statement -/
+
+/-- a call of the generic decoder that keeps `Sim`: int32 index, a finite count is `≥ 0` -/
+def GoodCall : GenDecodeWrap.Call → Prop
+  | (i, some c) => Idx32 i ∧ ∀ w, c = .fin w → 0 ≤ w
+  | (i, none) => Idx32 i
+
+theorem sim_step (x : GPS grow) (st : Store) (c : GenDecodeWrap.Call) (h : Sim x st) (hc : GoodCall c) :
+    Sim (@GenDecodeWrap.applyCall (GPS grow) baseI x c) (GenDecodeWrap.applyCall st c) := by
+  obtain ⟨i, oc⟩ := c
+  cases oc with
+  | some c => exact sim_addWithCount h i hc.1 c hc.2
+  | none => exact sim_add h i hc
+
+theorem gDecode_fallback (x : GPS grow) (b : List (BitVec 8)) (sub : SubFlag)
+    (h1 : (sub == BinEncodingIndexDeltas) = false) (h2 : (sub == BinEncodingContiguousCounts) = false) :
+    gDecode x b sub =
+      match @Gen.StoreDecode.DecodeAndMergeWith (GPS grow) baseI (gDecodeFuel x b) ⟨x.g⟩ b sub with
+      | .ok (y, b', e) => (y, b', e)
+      | _ => (x, b, GoErr.nil) := by
+  unfold gDecode
+  rw [DecodeAndMergeWith_fallback _ _ _ _ _ _ h1 h2]
+  cases @Gen.StoreDecode.DecodeAndMergeWith (GPS grow) baseI (gDecodeFuel x b) ⟨x.g⟩ b sub <;> rfl
+
+theorem flagSub_subflag : ∀ k, k < 64 → Wire.flagSub (subflag k).byte.toNat = k := by decide
+
+/-- **every other sub-flag** (layout `IndexDeltasAndCounts`, undefined layouts): the regenerated generic decoder over
+    `baseI`.  `hnone`: the model does not panic on the partner store. -/
+theorem sim_decode_generic {x : GPS grow} {st : Store} (h : Sim x st) (b : List (BitVec 8)) (k : Nat) (hk : k < 64)
+    (h1 : k ≠ Consts.binEncodingIndexDeltas) (h2 : k ≠ Consts.binEncodingContiguousCounts)
+    (hP : ∀ l b' e, GenDecodeWrap.decodeCalls (gDecodeFuel x b) b (subflag k) = .ok (l, b', e) →
+      ∀ c ∈ l.calls, GoodCall c)
+    (hw : NoWrap k (nb b)) (hnone : Sketch.decodeStore st k (nb b) ≠ none) :
+    StepRel x st b (subflag k) := by
+  obtain ⟨_, e2, e3⟩ := GenStoreDecode.subflag_beq k hk
+  have hG := gDecode_fallback x b (subflag k) (by rw [e2]; simpa using h1) (by rw [e3]; simpa using h2)
+  have hf : b.length + 9 ≤ gDecodeFuel x b := by unfold gDecodeFuel; omega
+  have hM : (StoreI.DecodeAndMergeWith st b (subflag k) : Store × List (BitVec 8) × GoErr) =
+      match Sketch.decodeStore st k (nb b) with
+      | some (.ok (st', rest)) => (st', bn rest, GoErr.nil)
+      | some (.error e) => (st, b, GenSketch.decErr e)
+      | none => (st, b, GoErr.nil) := by
+    show GenSketch.storeDecode st b (subflag k) = _
+    unfold GenSketch.storeDecode
+    rw [flagSub_subflag k hk]; rfl
+  unfold StepRel
+  rw [gps_decode, hG, hM]
+  cases hm : Sketch.decodeStore st k (nb b) with
+  | none => exact absurd hm hnone
+  | some q =>
+    cases q with
+    | error e =>
+      rcases @GenDecodeWrap.decode_model_error (GPS grow) baseI Sim GoodCall sim_step x st h k hk b e
+        (gDecodeFuel x b) hf hP hm with ⟨_, he, x', b', hr⟩ | ⟨_, he, hr⟩
+      · rw [show (⟨x.g⟩ : GPS grow) = x from rfl, hr, he]
+        exact ⟨rfl, fun h => absurd (show GoErr.eof = GoErr.nil from h) (by decide)⟩
+      · rw [show (⟨x.g⟩ : GPS grow) = x from rfl, hr, he]
+        exact ⟨rfl, fun h => absurd (show GoErr.named "unknown bin encoding" = GoErr.nil from h) (by decide)⟩
+    | ok p =>
+      obtain ⟨st', rest⟩ := p
+      obtain ⟨x', hs, hr⟩ := @GenDecodeWrap.decode_model_ok (GPS grow) baseI Sim GoodCall sim_step x st st' h k b
+        rest (gDecodeFuel x b) hf hw hP hm
+      rw [show (⟨x.g⟩ : GPS grow) = x from rfl, hr]
+      exact ⟨rfl, fun _ => ⟨rfl, hs⟩⟩
+
+/-- the side conditions of one store block, by layout -/
+def DecodeOK (x : GPS grow) (b : List (BitVec 8)) (sub : SubFlag) : Prop :=
+  (sub = BinEncodingIndexDeltas ∧ CapOK x.g ∧
+    (∀ v rest, decUvarint64 (nb b) = .ok (v, rest) → v < 2 ^ 63) ∧
+    (∀ u ∈ storeIndexes Consts.binEncodingIndexDeltas (nb b), Idx32 u)) ∨
+  (sub = BinEncodingContiguousCounts ∧
+    ∀ v r0 start r1 stride r2, decUvarint64 (nb b) = .ok (v, r0) → decVarint64 r0 = .ok (start, r1) →
+      decVarint64 r1 = .ok (stride, r2) →
+      2 * v ≤ 3 * b.length + 51 ∧ (∀ j : Nat, j < v → Idx32 (start + (j : Int) * stride)) ∧
+        (∀ c ∈ ccCounts v r2, NonnegFin c)) ∨
+  (∃ k, k < 64 ∧ sub = subflag k ∧ k ≠ Consts.binEncodingIndexDeltas ∧ k ≠ Consts.binEncodingContiguousCounts ∧
+    (∀ l b' e, GenDecodeWrap.decodeCalls (gDecodeFuel x b) b (subflag k) = .ok (l, b', e) →
+      ∀ c ∈ l.calls, GoodCall c) ∧
+    NoWrap k (nb b) ∧ ∀ s', Sketch.decodeStore (.pg s') k (nb b) ≠ none)
+
+/-- **`StoreI.DecodeAndMergeWith` of the `GPS` instance on a `Sim` pair** -/
+theorem sim_decode {x : GPS grow} {st : Store} (h : Sim x st) (b : List (BitVec 8)) (sub : SubFlag)
+    (hok : DecodeOK x b sub) : StepRel x st b sub := by
+  rcases hok with ⟨rfl, h1, h2, h3⟩ | ⟨rfl, h1⟩ | ⟨k, hk, rfl, h1, h2, h3, h4, h5⟩
+  · exact sim_decode_deltas h b h1 h2 h3
+  · exact sim_decode_contiguous h b h1
+  · obtain ⟨p, rfl, _⟩ := sim_model_pg h
+    exact sim_decode_generic h b k hk h1 h2 h3 h4 (h5 p)
+
 /-! ### 3. the regenerated sketch decoder over the two store instances -/
 
 section sketchDecode
